@@ -8,7 +8,7 @@ def run(tier, seed, cx):
     t0 = time.time()
     samples = []
     for prof in ('debug', 'release'):
-        p = subprocess.run(['%s/%s/h_par' % (cx['TARGET'], prof), str(seed), str(worlds)], stdout=subprocess.PIPE, stderr=subprocess.PIPE, text=True, errors='replace', timeout=3000)
+        p = subprocess.run(['%s/%s/h_par' % (cx['TARGET'], prof), str(seed), str(worlds), '1' if tier == 'quick' else '2'], stdout=subprocess.PIPE, stderr=subprocess.PIPE, text=True, errors='replace', timeout=3000)
         last = p.stdout.strip().split('\n')[-1] if p.stdout.strip() else ''
         import re
         m = re.search(r'checks=(\d+) mismatches=(\d+)', last)
@@ -20,6 +20,6 @@ def run(tier, seed, cx):
                               replay_cmd='%s/%s/h_par %d %d' % (cx['TARGET'], prof, seed, worlds)), True))
         samples.append('%s: %s' % (prof, last))
     cov = dict(evaluations=total_checks, distinct_nontrivial=total_checks,
-               rule='h_par: %d generated worlds per profile (0..6000 entities over subsets of {K0,K1,K3} or, in every second world, of all six component types = up to 64 archetypes, with churn), 6 typed fetchers (read, mutable, optional, With (zero-sized state), Or, into_par_iter), pools of 1,2,3,4,8,16 threads, with and without per-item delay; each evaluation compares the sorted items visited in parallel with sequential iteration of the same fetcher (non-trivial = every one: populations are regenerated per world)' % worlds,
+               rule='h_par: %d generated worlds per profile (0..6000 entities over subsets of {K0,K1,K3} or, in every second world, of all six component types = up to 64 archetypes, with churn), 6 typed fetchers (read, mutable, optional, With (zero-sized state), Or, into_par_iter), pools of 1,2,3,4,8,16 threads, with and without per-item delay; plus a grid of worlds with three matching archetypes of every combination of populations from {1,30,60,64,90,128} (thorough: 14 sizes) on pools of 2, 4, 8 threads, so that split points fall on first rows, on equal row indices in two archetypes etc.; each evaluation compares the sorted items visited in parallel with sequential iteration of the same fetcher (non-trivial = every one: populations are regenerated per world)' % worlds,
                samples=samples, par_wall_s=round(time.time() - t0, 1))
     return viol, cov
